@@ -2,7 +2,7 @@ CONSTANTS
   Reward = 60000
   Maturity = 3
   Slates = {"s1", "s2"}
-  Amounts = {1000}
+  Amounts = {1001}
   NFund = 2
   MaxH = 6
   MaxLog = 2
@@ -11,7 +11,7 @@ CONSTANTS
   UseInvoice = FALSE
   UseAccounts = FALSE
   UseMineTo = FALSE
-  UseCancelBySlate = FALSE
+  UseCancelBySlate = TRUE
   MaxAdv = 1
   MaxFork = 0
   UseScan = FALSE
@@ -19,13 +19,12 @@ CONSTANTS
   UseSelf = FALSE
   FundAcct2 = FALSE
   UseBuild = FALSE
-  NChanges = {1}
+  NChanges = {2}
   UseDiverge = FALSE
   UseAdv = FALSE
 SPECIFICATION Spec
 INVARIANT TypeOK
 INVARIANT Inv_Exclusive
-INVARIANT Inv_Crash
 PROPERTY Prop_Replay
 PROPERTY Prop_SelectAvoidsReserved
 PROPERTY Prop_Cancel
